@@ -1353,6 +1353,27 @@ def rule_r11(ctx):
                     f"{fi.where()}: a lambda/comprehension table gets no namespace and the walk does not descend into it; {', '.join(n.name for n in callees)} looks at its own symbols only, never at get_children(): names used in a lambda/comprehension NESTED in it are missed (`[[abs(v) for v in row] for row in rows]` in a class body on hosts before 3.12: KeyError 'abs')",
                     where=fi.where(), what=what + "|subtree",
                 )
+        # generator expressions keep a symbol table of their own on EVERY host (PEP 709 inlines only
+        # list/set/dict comprehensions from 3.12 on): the skip that covers `genexpr` must not be limited
+        # to hosts before 3.12
+        if "genexpr" in names:
+            from ..model import version_test
+
+            rr.instances += 1
+            limited = None
+            for t in tests:
+                for sub in ast.walk(t):
+                    vt = version_test(ctx.prog, mi, sub) if isinstance(sub, ast.Compare) else None
+                    if vt is not None and vt[0] in ("<", "<=") and vt[1] is not None and tuple(vt[1])[:2] <= (3, 12):
+                        limited = sub
+            if limited is not None:
+                rr.fail(
+                    "C06-R11|generate_nsp|genexpr-skip-host-dependent",
+                    f"{fi.where()}: comprehension tables are passed over only when `{ast.unparse(limited)}`; on a 3.12+ host a generator expression still has its own table and becomes a function namespace: `class A: r = list(abs(i) for i in xs)` stops the conversion with KeyError 'abs', `for row in rows: sum(row[k] for k in ks)` in a function fails with KeyError 'row' at run time (hosts 3.10/3.11 convert both)",
+                    where=fi.where(), what=what + "|genexpr-host",
+                )
+            else:
+                rr.ok(what + "|genexpr-host", sample={"rule": "C06-R11", "verdict": "genexpr tables are skipped on every host"})
         if weak and not evidence:
             rr.fail(
                 "C06-R11|generate_nsp|skip-by-name",
